@@ -330,6 +330,8 @@ type Exec struct {
 	stack      []*ssa.Function
 	forceInline bool
 	noCut      bool
+	prune      bool
+	nFeas      int
 	freshGhost map[uint32]bool
 	ghostBounded map[*Term]bool
 	recovering int
@@ -862,6 +864,19 @@ func (e *Exec) execFrom(fr *Frame, st State, b *ssa.BasicBlock, prev *ssa.BasicB
 					return e.execFrom(fr, st, b.Succs[0], b, 0)
 				}
 				return e.execFrom(fr, st, b.Succs[1], b, 0)
+			}
+			if e.prune {
+				// many paths already: ask the solver which branches are feasible at all
+				f1 := e.feasible(st.branch(cond))
+				f2 := e.feasible(st.branch(e.c.Not(cond)))
+				switch {
+				case f1 && !f2:
+					return e.execFrom(fr, st.assume(cond), b.Succs[0], b, 0)
+				case !f1 && f2:
+					return e.execFrom(fr, st.assume(e.c.Not(cond)), b.Succs[1], b, 0)
+				case !f1 && !f2:
+					return nil
+				}
 			}
 			e.paths++
 			if os.Getenv("KVC_FORKS") != "" {
